@@ -266,19 +266,140 @@ Proof.
   rewrite Hps1 in B. rewrite Hf1 in C. auto.
 Qed.
 
-(* whole histories: every read of every history returns the file's bytes *)
+(* ---------- overwrite + explicit invalidation ---------- *)
+Lemma overwrite_skipn_after (f data : list N) (o n : nat) :
+  (o + length data <= length f)%nat -> (o + length data <= n)%nat ->
+  skipn n (firstn o f ++ data ++ skipn (o + length data) f) = skipn n f.
+Proof.
+  intros Hin Hn.
+  rewrite skipn_app, firstn_length, (skipn_all2 (firstn o f)) by (rewrite firstn_length; lia).
+  rewrite Nat.min_l by lia. cbn [app].
+  rewrite skipn_app, (skipn_all2 data) by lia. cbn [app].
+  rewrite skipn_skipn'. f_equal. lia.
+Qed.
+
+Lemma overwrite_firstn_before (f rest : list N) (o m ps : nat) :
+  (o <= length f)%nat -> (m + ps <= o)%nat ->
+  firstn ps (skipn m (firstn o f ++ rest)) = firstn ps (skipn m f).
+Proof.
+  intros Ho Hm.
+  rewrite skipn_app, firstn_length, Nat.min_l by lia.
+  replace (m - o)%nat with 0%nat by lia. cbn [skipn].
+  rewrite firstn_app, skipn_length, firstn_length, Nat.min_l by lia.
+  replace (ps - (o - m))%nat with 0%nat by lia. cbn [firstn]. rewrite app_nil_r.
+  rewrite skipn_firstn_comm, firstn_firstn. f_equal. lia.
+Qed.
+
+Lemma page_outside ps f off data p :
+  0 < ps -> off + nlen data <= nlen f ->
+  ((p + 1) * ps <= off \/ off + nlen data <= p * ps) ->
+  page_of ps (overwrite f off data) p = page_of ps f p.
+Proof.
+  intros Hps Hin Hout. unfold page_of, overwrite.
+  pose proof (nlen_len f) as Lf. pose proof (nlen_len data) as Ld.
+  destruct Hout as [Hb|Ha].
+  - apply overwrite_firstn_before; lia.
+  - f_equal. apply overwrite_skipn_after; lia.
+Qed.
+
+Lemma plookup_premove_ne {A} (k k' : pkey) (l : list (pkey * A)) x :
+  plookup k' (premove k l) = Some x -> k' <> k.
+Proof.
+  intros H ->. revert H.
+  induction l as [|[k1 z] l IH]; cbn [premove plookup]; [discriminate|].
+  destruct (pkey_eqb k1 k) eqn:E; [assumption|]. cbn [plookup]. rewrite E. assumption.
+Qed.
+
+Lemma inval_loop_fields fid : forall np c page,
+  psize (inval_loop np c fid page) = psize c /\ files (inval_loop np c fid page) = files c.
+Proof.
+  induction np as [|np IH]; intros c page; cbn [inval_loop]; [auto|].
+  destruct (IH (pc_invalidate_page c (fid, page)) (page + 1)) as [A B]. auto.
+Qed.
+
+Lemma inval_loop_lookup fid : forall np c page k pg,
+  plookup k (inner (inval_loop np c fid page)) = Some pg ->
+  plookup k (inner c) = Some pg /\ ~ (fst k = fid /\ page <= snd k /\ snd k < page + N.of_nat np).
+Proof.
+  induction np as [|np IH]; intros c page k pg H; cbn [inval_loop] in H.
+  - split; [exact H|]. intros (_ & A & B). lia.
+  - apply IH in H. destruct H as [H Hout]. cbn [pc_invalidate_page inner] in H.
+    pose proof (plookup_premove_ne _ _ _ _ H) as Hne. apply plookup_premove in H.
+    split; [exact H|]. intros (Hf & A & B). apply Hout. split; [exact Hf|]. split; [|lia].
+    destruct (N.eq_dec (snd k) page) as [E|E]; [|lia].
+    exfalso. apply Hne. destruct k as [a b]. cbn [fst snd] in *. subst. reflexivity.
+Qed.
+
+Lemma span_outside ps off len p :
+  0 < ps ->
+  let sp := off / ps in
+  let np := (off + len - 1) / ps + 1 - sp in
+  ~ (sp <= p /\ p < sp + np) -> (p + 1) * ps <= off \/ off + len <= p * ps.
+Proof.
+  intros Hps sp np Hout.
+  pose proof (div_bounds off ps Hps) as [A1 A2]. fold sp in A1, A2.
+  pose proof (div_bounds (off + len - 1) ps Hps) as [B1 B2].
+  set (ep := (off + len - 1) / ps) in *.
+  destruct (N.lt_ge_cases p sp) as [Hlt|Hge].
+  - left. nia.
+  - right. assert (Hp : sp + np <= p) by lia. subst np.
+    destruct (N.le_gt_cases sp ep) as [Hle|Hgt].
+    + assert (ep + 1 <= p) by lia. nia.
+    + (* ep < sp: only when len = 0 and off is a multiple of the page size *)
+      assert (len = 0 \/ 0 < len) as [->|Hl] by lia; [nia|].
+      exfalso. assert (off / ps <= (off + len - 1) / ps) by (apply N.div_le_mono; lia). fold sp ep in H. lia.
+Qed.
+
+Lemma overwrite_coherent_proof c fid off data :
+  0 < psize c -> coherent c ->
+  (forall f, files c fid = Some f -> off + nlen data <= nlen f) ->
+  coherent (pc_overwrite c fid off data) /\
+  psize (pc_overwrite c fid off data) = psize c /\
+  files (pc_overwrite c fid off data) = fs_overwrite (files c) fid off data.
+Proof.
+  intros Hps Hc Hin. unfold pc_overwrite, pc_invalidate_range, page_span.
+  set (c1 := with_files c (fs_overwrite (files c) fid off data)).
+  change (psize c1) with (psize c).
+  set (sp := off / psize c).
+  set (npn := (off + nlen data - 1) / psize c + 1 - sp).
+  destruct (inval_loop_fields fid (N.to_nat npn) c1 sp) as [Fp Ff].
+  split; [|split; [exact Fp|exact Ff]].
+  intros k pg Hl. apply inval_loop_lookup in Hl. destruct Hl as [Hl Hout].
+  change (inner c1) with (inner c) in Hl. apply Hc in Hl. rewrite Hl.
+  rewrite Fp, Ff. change (psize c1) with (psize c). change (files c1) with (fs_overwrite (files c) fid off data).
+  unfold fs_overwrite. destruct (N.eqb_spec (fst k) fid) as [Ek|Ek]; [|reflexivity].
+  destruct (files c (fst k)) as [f|] eqn:Efl; [|reflexivity].
+  symmetry. apply page_outside; [exact Hps|apply Hin; rewrite <- Ek; exact Efl|].
+  apply (span_outside (psize c) off (nlen data) (snd k) Hps). fold sp. fold npn.
+  intros [A B]. apply Hout. split; [exact Ek|]. split; [exact A|]. rewrite N2Nat.id. exact B.
+Qed.
+
+(* whole histories: every read of every history returns the file's current bytes *)
 Definition expected (fs : N -> option (list N)) (o : pop) : list N :=
   match o with
   | PRead fid off len => match fs fid with Some f => file_range f off len | None => [] end
   | _ => []
   end.
+Definition next_files (fs : N -> option (list N)) (o : pop) : N -> option (list N) :=
+  match o with POverwrite fid off data => fs_overwrite fs fid off data | _ => fs end.
+(* every overwrite lies inside its file *)
+Definition op_ok (fs : N -> option (list N)) (o : pop) : Prop :=
+  match o with
+  | POverwrite fid off data => forall f, fs fid = Some f -> off + nlen data <= nlen f
+  | _ => True
+  end.
+Fixpoint ops_ok (fs : N -> option (list N)) (ops : list pop) : Prop :=
+  match ops with [] => True | o :: t => op_ok fs o /\ ops_ok (next_files fs o) t end.
+Fixpoint expected_run (fs : N -> option (list N)) (ops : list pop) : list (list N) :=
+  match ops with [] => [] | o :: t => expected fs o :: expected_run (next_files fs o) t end.
 
 Lemma pc_step_spec c o :
-  0 < psize c -> coherent c ->
+  0 < psize c -> coherent c -> op_ok (files c) o ->
   snd (pc_step c o) = expected (files c) o /\ coherent (fst (pc_step c o)) /\
-  psize (fst (pc_step c o)) = psize c /\ files (fst (pc_step c o)) = files c.
+  psize (fst (pc_step c o)) = psize c /\ files (fst (pc_step c o)) = next_files (files c) o.
 Proof.
-  intros Hps Hc. destruct o as [fid off len|fid off len|fid page|fid off len]; cbn [pc_step expected].
+  intros Hps Hc Hok. destruct o as [fid off len|fid off len|fid page|fid off len|fid off data];
+    cbn [pc_step expected next_files].
   - destruct (files c fid) as [f|] eqn:Hf.
     + apply read_correct_proof; assumption.
     + apply read_virtual_proof; assumption.
@@ -287,18 +408,20 @@ Proof.
   - cbn [fst snd]. split; [reflexivity|]. apply invalidate_page_coh. assumption.
   - cbn [fst snd]. unfold pc_invalidate_range. destruct (page_span (psize c) off len) as [sp np].
     split; [reflexivity|]. apply inval_loop_coh. assumption.
+  - cbn [fst snd]. split; [reflexivity|]. apply overwrite_coherent_proof; assumption.
 Qed.
 
 Lemma pc_run_spec ops : forall c,
-  0 < psize c -> coherent c ->
-  snd (pc_run c ops) = map (expected (files c)) ops.
+  0 < psize c -> coherent c -> ops_ok (files c) ops ->
+  snd (pc_run c ops) = expected_run (files c) ops.
 Proof.
-  induction ops as [|o ops IH]; intros c Hps Hc; cbn [pc_run map]; [reflexivity|].
-  destruct (pc_step_spec c o Hps Hc) as (Hr & Hc1 & Hps1 & Hf1).
+  induction ops as [|o ops IH]; intros c Hps Hc Hok; cbn [pc_run expected_run]; [reflexivity|].
+  cbn [ops_ok] in Hok. destruct Hok as [Ho Hrest].
+  destruct (pc_step_spec c o Hps Hc Ho) as (Hr & Hc1 & Hps1 & Hf1).
   destruct (pc_step c o) as [c1 r]. cbn [fst snd] in *.
-  specialize (IH c1). rewrite Hps1 in IH. specialize (IH Hps Hc1).
+  specialize (IH c1). rewrite Hps1, Hf1 in IH. specialize (IH Hps Hc1 Hrest).
   destruct (pc_run c1 ops) as [c2 rs]. cbn [snd] in *.
-  rewrite Hr, IH, Hf1. reflexivity.
+  rewrite Hr, IH. reflexivity.
 Qed.
 
 Lemma pc_new_coherent ps capb fs : coherent (pc_new ps capb fs).
